@@ -97,7 +97,14 @@ pub fn run(s: &mut Session, ctx: &Ctx) {
                         }
                         Some(o) => o,
                     };
-                    s.op(op, ok(vec![x(hex_str(&out))]), has_fg || has_bg || bits != 0);
+                    if *mode == Some(Mode::Ansi8Bit) && (has_fg || has_bg) {
+                        // the 8-bit parameter is "its quantised code": whichever entry to_ansi_8bit names (C12 says
+                        // which entries are admissible); the direct oracle below builds the sequence with that code
+                        s.count_case(&op, true);
+                        s.tag("op:style (8-bit code taken from to_ansi_8bit, direct oracle only)");
+                    } else {
+                        s.op(op, ok(vec![x(hex_str(&out))]), has_fg || has_bg || bits != 0);
+                    }
                     match mode {
                         None => s.check(out == text, "paint-off-is-identity", "Brush::paint", inp, || format!("{:?}", out)),
                         Some(m) => {
@@ -111,7 +118,11 @@ pub fn run(s: &mut Session, ctx: &Ctx) {
         // to_ansi_sequence
         for (m, name) in [(Mode::TrueColor, "24"), (Mode::Ansi8Bit, "8")] {
             if let Some(seq) = guard(|| c.to_ansi_sequence(m)) {
-                s.op(format!("ansi seq {} {}", name, c_in(c)), ok(vec![x(hex_str(&seq))]), true);
+                if m == Mode::TrueColor {
+                    s.op(format!("ansi seq {} {}", name, c_in(c)), ok(vec![x(hex_str(&seq))]), true);
+                } else {
+                    s.count_case(&format!("ansi seq {} {}", name, c_in(c)), true); // the code is to_ansi_8bit's choice (C12): direct oracle below
+                }
                 let q = c.to_rgba();
                 let want = match m {
                     Mode::TrueColor => format!("\x1b[38;2;{};{};{}m", q.r, q.g, q.b),
